@@ -76,6 +76,11 @@ def gen_case(rng, supervised):
   with warnings.catch_warnings():
     warnings.simplefilter('ignore')
     try:
+      if prior_kind == 'array' and rng.random() < 0.5:
+        # the user's prior array has been used before (a hand-written gamma sweep, another estimator sharing it):
+        # the program solved below is still the one for the prior the user specified
+        gen.ITML(gamma=4.0 * gamma, max_iter=50, prior=prior_arg, random_state=seed).fit(pairs.copy(), lab.copy())
+        ev['prior_array_used_before'] = True
       if supervised:
         est = gen.ITML_Supervised(gamma=gamma, max_iter=max_iter, tol=tol, prior=prior_arg, n_constraints=n_c, random_state=seed)
         cap = run_with_frame(lambda: est.fit(X.copy(), y.copy(), bounds=None if bounds is None else bounds.copy()))
@@ -84,7 +89,16 @@ def gen_case(rng, supervised):
         cap = run_with_frame(lambda: est.fit(pairs.copy(), lab.copy(), bounds=None if bounds is None else bounds.copy()))
       L = np.asarray(est.components_)
       M = L.T.dot(L)
-      M0 = _initialize_metric_mahalanobis(pairs, prior, seed, strict_pd=True, matrix_name='prior')
+      # the DOCUMENTED prior, computed without the library where the documentation defines it (the harness's own copy of
+      # a user array; identity; inverse covariance of the distinct points); 'random' is read from the library's generator
+      if prior_kind == 'array':
+        M0 = prior.copy()
+      elif prior_kind == 'identity':
+        M0 = np.eye(d)
+      elif prior_kind == 'covariance':
+        M0 = np.linalg.inv(np.atleast_2d(np.cov(np.unique(np.vstack(pairs), axis=0), rowvar=False)))
+      else:
+        M0 = _initialize_metric_mahalanobis(pairs.copy(), prior, seed, strict_pd=True, matrix_name='prior')
       pos, neg = pairs[lab == 1], pairs[lab == -1]
       V = np.vstack([pos[:, 0] - pos[:, 1], neg[:, 0] - neg[:, 1]])
       yy = [1] * len(pos) + [-1] * len(neg)
@@ -122,7 +136,7 @@ def run(ctx):
   ctx.model('MC_ITML', 'MC_ITML.cfg')
   rng = np.random.default_rng(ctx.seed + 11)
   rs = []
-  for i in range(8 if ctx.quick else 48):
+  for i in range(16 if ctx.quick else 96):
     rs.append(dict(supervised=bool(i % 2), n=5 if ctx.quick else 12, seed=int(rng.integers(1 << 30))))
   ctx.rule = ('random pair sets (both labels, non-collapsed) x priors {identity, covariance, random, SPD array} x gamma in '
               '{1/4, 1, 4, 64} x explicit / default bounds x {run to convergence with tol 1e-12, 1-5 iterations, prior '
